@@ -13,6 +13,8 @@ from __future__ import annotations
 
 import ast
 
+from .helpers import Every  # noqa: E402
+
 from .. import terms as T
 from ..model import AnalysisError, self_attr, stmt_text, walk_no_nested
 from ..paths import unversion
@@ -172,16 +174,18 @@ def _winners(chk, ctx) -> None:
                 found = True
                 winners = unversion(e.term[2][1])
                 ok_src = ok_max = False
+                ok_src = Every()
+                ok_max = Every()
                 got_max = None
                 if winners[0] == 'comp' and len(winners[3]) == 1:
                     tgt, it, ifs = winners[3][0]
-                    ok_src = it == elig and winners[2] == (tgt,)
+                    ok_src.see(it == elig and winners[2] == (tgt,))
                     if len(ifs) == 1 and ifs[0][0] == 'eq':
                         a, b = ifs[0][1]
                         hi = ('sub', hands, tgt)
                         other = b if a == hi else a if b == hi else None
                         got_max = other
-                        ok_max = other in max_forms
+                        ok_max.see(other in max_forms)
                 chk.ob('C02.winners', 'State.push_chips:drawn_from_pot', ok_src, ctx.loc(fi, e.node),
                        "the players paid from a sub-pot are drawn from that pot's eligible players only",
                        got=T.show(winners)[:200], want=f'[i for i in {T.show(elig)} if ...]')
